@@ -79,6 +79,24 @@ CLAIMS = {
  "C23": ("per-path packed-record layout extraction (index/slice/unsafe-cast/copy at cursor+const) with writer/reader table comparison",
          "Decides that every field LocalBuffer.Add stores lies inside the cursor stride, fields are disjoint, and Add/Next agree on offset, width, stride and version flag per role; refusal stores nothing. Exact for the layout clause (the one the defect F11 lived in); FIFO behaviour over operation sequences is not decided.",
          "go/types + go/cfg; gc/amd64 sizes for unsafe casts"),
+ "C11": ("channel-capacity provenance rule for the work queue (capacity derived from the item count vs. consumers started later), per-workload path rule over the worker closure, accumulator-discipline classification of the fan-in goroutine, shared-write rule over worker-reachable closures",
+         "Decides the termination shape of the work queue, the worker protocol (Add before spawn, deferred Done, at most one result message per workload, close after all producers), commutative fan-in and the absence of writes to shared state from concurrently evaluated code. Equality of results across worker counts as executed, and absence of every deadlock, are NOT decided.",
+         "go/types + go/cfg; semantics of buffered channels, sync.WaitGroup; frozen anchors DBWorkManager.CreateWorkerJobs/ExecuteWorkerReadJobs/readBlocksAndEvaluate, aggregateQueryResults"),
+ "C18": ("sibling cross-check by normalised syntax-tree comparison (Set vs SetOrUpdate, Merge's inlined traversal vs Iter.Next), key-ownership dataflow rule (slot cut from the map's own arena, copy of the caller's bytes, arena grown before, position advanced), parameter-to-counter position table",
+         "Decides key ownership, sibling agreement of the two insertion paths and of the two traversals, counter-position agreement and the evacuation test of lookups. Map semantics under growth as executed, exactly-once iteration and load-factor arithmetic are NOT decided.",
+         "go/types syntax trees of pkg/types/hashmap; frozen anchors Map.Set, Map.SetOrUpdate, Map.Merge, Iter.Next, Map.Get"),
+ "C24": ("exhaustive evaluation of the day-plan function over its 12 reachable boolean input states and of the per-timestamp block choice over its 8 states by an interpreter over the syntax tree (finite domains, no program execution), per-day path rule over the counters, guard-restricted reachability for the dry-run flag, path-root derivation for every write sink of the copy / stage / commit helpers",
+         "Decides that the decision tables in the code are the documented ones, that every processed day is counted exactly once under the counter of its action (also in a dry run), that no modifying call of MergeDatabases is reachable in a dry run, that the helpers write only below their destination / stage parameter and that every non-failing commit installs the staged day. The resulting database contents, idempotence and completeness arithmetic are NOT decided.",
+         "go/types + go/cfg; table of file-modifying os functions; frozen anchors planDayMerge, mergeSnapshots, MergeDatabases, commitStagedDay, stageCopyDay, rebuildDayToStage, copyDir, copyFile"),
+ "C25": ("per-path order automaton over commitStagedDay (backup rename before install, backup removed iff success), staging who-may-write rule over MergeDatabases, constant evaluation of the merge's reserved name patterns against the name predicates of every directory lister",
+         "Decides the swap order and the namespace separation between merge leftovers and listers (necessary for 'an interrupted merge neither duplicates nor hides data'). The state at each crash point is NOT decided; six listers accept leftover names today (known finding F21, listed in known_findings.json).",
+         "go/types + go/cfg; rename(2) atomicity; frozen lister table (info.GetInterfaces, listSourceInterfaces, walkDB, listInterfaceDays, locateDayDirectory, binarySearchPrefix)"),
+ "C28": ("constant-table extraction of the relative-time unit switch, accumulator-provenance rule (only unit*number / duration seconds added; only the accumulator subtracted from now; no calendar arithmetic), sibling agreement of the two range parsers, order rule over ParseTimeArgument's fallbacks",
+         "Decides the unit table, the fixed-duration arithmetic, first<=last rejection in both range parsers, and the documented fallback order relative -> Unix integer -> layouts in local zone. Round-tripping of each layout (time package), layout ambiguity and DST behaviour of absolute local times are NOT decided.",
+         "go/types + go/cfg; frozen anchors parseRelativeTime, ParseTimeArgument, ParseTimeRange, ParseTimeRangeCollectErrors"),
+ "C29": ("effect rule (no field assignment / delete / clear / mutating method) over everything FlowLog.Aggregate reaches, lock pairing path rule over GetFlowMaps, input-vs-result write rule over the live condition filter, sibling agreement Aggregate vs transferAndAggregate",
+         "Decides that the live-query path is read-only on capture state, that the filter writes only its fresh result map and that live data is keyed and accumulated exactly like rotated data. Grouping of live rows by the query attributes (observation F25) and schedules between write-outs are NOT decided.",
+         "go/types + go/cfg; frozen anchors FlowLog.Aggregate, FlowLog.transferAndAggregate, Capture.flowMap, Manager.GetFlowMaps, the live filter in pkg/capture"),
 }
 
 NOT_APPLICABLE = {}
